@@ -2671,6 +2671,10 @@ class Interp:
                         or isinstance(tt, ModuleRef)):
                     raise AbsRaise("TypeError: isinstance() arg 2 must be a type, a tuple of types, or a union", where)
             for tt in ts:
+                if isinstance(tt, tuple) and tt == ("builtin", "NoneType"):
+                    if v is None:
+                        return True
+                    continue
                 if isinstance(tt, type) and not isinstance(v, (AObj, OrdInt, EnumVal)):
                     if isinstance(v, tt):
                         return True
@@ -3247,6 +3251,8 @@ class Interp:
 
     def _specificity(self, v: Any, t: Any) -> Optional[int]:
         """Distance of class t in the MRO of v's class (0 = exact class), None when v is not an instance of t."""
+        if t is None or (isinstance(t, tuple) and t == ("builtin", "NoneType")):
+            return 0 if v is None else None          # `None` as a registered type stands for type(None)
         if not self.builtin("isinstance", [v, t], {}, ast.Constant(value=None), ""):
             return None
         if isinstance(t, ClassRef):
